@@ -355,6 +355,41 @@ def rule_MP6(rep, prog, q):
                 "_dispatch_root_queue_poke must probe the tail before deciding not to request a thread", sample={"probes": len(probe), "slow": len(slow)})
 
 
+ASYNC_ROOTS = ["dispatch_async", "dispatch_async_f", "dispatch_barrier_async", "dispatch_barrier_async_f", "dispatch_group_async", "dispatch_group_async_f"]
+WORK_WAITS = ["_dispatch_thread_event_wait_slow", "_dispatch_sema4_wait", "_dispatch_sema4_timedwait", "_dispatch_wait_on_address", "__DISPATCH_WAIT_FOR_QUEUE__",
+              "dispatch_semaphore_wait", "_dispatch_semaphore_wait_slow", "dispatch_group_wait", "_dispatch_group_wait_slow", "dispatch_sync", "dispatch_sync_f",
+              "_dispatch_sync_f_slow", "dispatch_block_wait", "sem_wait", "sem_timedwait"]
+WAIT_EXCEPTIONS = {"dispatch_once_f": "bounded one-time library initialisation", "_dispatch_once_wait": "same",
+                   "_dispatch_temporary_resource_shortage": "thread-creation back-off (sleep), not a wait for a work item",
+                   "_dispatch_client_callout": "client code", "_dispatch_client_callout2": "client code"}
+PUSHERS = {"_dispatch_lane_push": "lane", "_dispatch_lane_concurrent_push": "concurrent lane", "_dispatch_root_queue_push": "global queue",
+           "_dispatch_workloop_push": "workloop", "_dispatch_main_queue_push": "main queue", "_dispatch_mgr_queue_push": "manager queue",
+           "_dispatch_runloop_queue_push": "runloop queue", "_dispatch_source_push": "source", "_dispatch_mach_push": "mach channel",
+           "_dispatch_object_no_invoke": "not enqueueable (crashes)"}
+
+
+def rule_WM9(rep, prog):
+    from dqsa import callgraph
+    rid = rep.rule("C01-WM9", "asynchronous submission never waits for work: no path in the call graph (closed over the vtable slots) from dispatch_async / "
+                   "dispatch_barrier_async / dispatch_group_async to a blocking wait for a work item; every dq_push implementation is a classified pusher", floor=2)
+    cg = callgraph.CallGraph(prog)
+    roots = [r for r in ASYNC_ROOTS if r in cg.edges]
+    if len(roots) < 4:
+        rep.unknown(rid, "asynchronous entry points not found (%s)" % roots)
+        return
+    seen, pred = cg.reach(roots, stop=frozenset(WAIT_EXCEPTIONS))
+    bad = [w for w in WORK_WAITS if w in seen]
+    rep.require(rid, not bad, "src/queue.c", "dispatch_async", "async-reaches-wait:%s" % (bad[0] if bad else ""),
+                "an asynchronous submission can reach the blocking wait %s via %s: dispatch_async would wait for another work item to run"
+                % (bad[0] if bad else None, " -> ".join(cg.path(pred, bad[0])) if bad else None),
+                sample={"roots": len(roots), "functions_reachable": len(seen), "vtable_slots": {k: len(v) for k, v in cg.slots.items() if k.startswith(("dq_", "do_"))}})
+    pushers = cg.slots.get("dq_push", set())
+    unk = sorted(p_ for p_ in pushers if p_ not in PUSHERS)
+    rep.require(rid, not unk and len(pushers) >= 4, "src/init.c", "vtables", "unclassified-dq_push:%s" % (unk[0] if unk else ""),
+                "dq_push implementation(s) %s are stored in a queue vtable but are not classified pushers (their wake-up obligations are not checked)" % unk,
+                sample={"dq_push": sorted(pushers)})
+
+
 def run(rep, tier="quick", srcdir=None, only=None):
     prog, units = load(UNITS, tier, srcdir)
     rep.units = units
@@ -377,6 +412,8 @@ def run(rep, tier="quick", srcdir=None, only=None):
         rule_TR4(rep, prog, ex, q, ts)
     if want("C01-MP6"):
         rule_MP6(rep, prog, q)
+    if want("C01-WM9"):
+        rule_WM9(rep, ir.Program(build.facts_for("all", srcdir=srcdir)))
     if want("C03-MP2"):
         # queues chained through target queues: the level-by-level acquire/release discipline (shared with C03)
         from . import C03
